@@ -1087,7 +1087,7 @@ impl<'comments> Formatter<'comments> {
                 }
             }
 
-            UntypedExpr::Var { name, .. } if name.contains(CAPTURE_VARIABLE) => "_"
+            UntypedExpr::Var { name, .. } if name.starts_with(CAPTURE_VARIABLE) => "_"
                 .to_doc()
                 .append(name.split('_').next_back().unwrap_or_default()),
 
@@ -1644,7 +1644,7 @@ impl<'comments> Formatter<'comments> {
             Some(CallArg {
                 value: UntypedExpr::Var { name, .. },
                 ..
-            }) if name.contains(CAPTURE_VARIABLE)
+            }) if name.starts_with(CAPTURE_VARIABLE)
         );
 
         if hole_in_first_position && args.len() == 1 {
